@@ -226,6 +226,16 @@ func (m *c08Model) check(r *Run, s *Step, o *Outcome) []Violation {
 			}
 		}
 	}
+	for _, t := range o.Txs {
+		if t.Tx != nil && t.Tx.K == "convert_erc20" {
+			if t.Res.OK() {
+				r.Nontrivial = true
+				r.Probe("convert-erc20-ok")
+			} else {
+				r.Probe("convert-erc20-refused")
+			}
+		}
+	}
 	if s.Kind == "run" || s.Kind == "deploy" {
 		r.Nontrivial = true
 	}
@@ -300,6 +310,10 @@ func (e EvmEngine) c08Setup(r *Run) []Step {
 		{K: "eth_call", S: "user/3", A: A("to", "", "data", hex.EncodeToString(append(append([]byte{}, pc.Bin...), ctor...)), "value", "0"), Gas: 5_000_000},
 		{K: "eth_call", S: "user/3", A: A("to", token.Hex(), "data", hex.EncodeToString(initd), "value", "0"), Gas: 2_000_000},
 	}
+	if r.Pct(50) {
+		// swarm: the externally-owned token is one whose failed transfers return false instead of reverting
+		txs = []Tx{{K: "eth_call", S: "user/3", A: A("to", "", "data", hex.EncodeToString(softTokenInit("Soft token", "TST", 18)), "value", "0"), Gas: 5_000_000}}
+	}
 	for i := 0; i < st.NUsers; i++ {
 		d, _ := fip.Pack("mint", w.Key("user", i).Hex(), big.NewInt(1_000_000_000))
 		txs = append(txs, Tx{K: "eth_call", S: "user/3", A: A("to", token.Hex(), "data", hex.EncodeToString(d), "value", "0"), Gas: 2_000_000})
@@ -332,7 +346,17 @@ func (e EvmEngine) genC08(r *Run) Step {
 		return Tx{K: "pcall", S: signer, A: A("t", t, "m", meth, "args", strings.Join(args, "|")), Gas: 3_000_000}
 	}
 	other := func() string { return fmt.Sprintf("$user%d", r.Rng.IntN(st.NUsers)) }
-	switch r.Rng.IntN(14) {
+	switch r.Rng.IntN(15) {
+	case 14:
+		// ERC-20 out through the bridge with more than the sender owns: must be refused whether the token
+		// reverts or merely returns false (MsgConvertERC20 itself cannot be sent on this tree: its signer
+		// field is a hex address the bech32 signer codec refuses, so the precompiles are the only way in)
+		over := new(big.Int).Add(w.ERC20Balance(w.Ctx(), common.HexToAddress(e.resolver(r, nil)("$"+sym)), w.Key("user", u).Hex()), big.NewInt(int64(1+r.Rng.IntN(1000))))
+		if r.Pct(50) {
+			return blk(pc("crosschain", "bridgeCall", "$chain", other(), "$"+sym, over.String(), fmt.Sprintf("$ext%d", r.Rng.IntN(5)), "", "0", ""))
+		}
+		return blk(pc("token:"+sym, "approve", cctypes.GetAddress().Hex(), "1000000000000000000000000000000"),
+			pc("crosschain", "crossChain", "$"+sym, fmt.Sprintf("$ext%d", r.Rng.IntN(5)), over.String(), "2", "$target", ""))
 	case 0, 1:
 		recv := w.Key("user", r.Rng.IntN(st.NUsers)).Hex().Hex()
 		amt := int64(1 + r.Rng.IntN(5000))
@@ -374,6 +398,11 @@ func (e EvmEngine) genC08(r *Run) Step {
 		}
 		return Step{Kind: "ext", A: A("chain", ch.Name, "op", "bridge_call", "symbols", "USDT", "amounts", fmt.Sprint(1+r.Rng.IntN(2000)), "user", r.Rng.IntN(st.NUsers), "to", to.Hex(), "data", hex.EncodeToString(MaskAll()), "memo", "")}
 	case 9:
+		if r.Pct(30) {
+			// a second coin registration that re-uses an alias owned by an existing pair (must be refused)
+			alias := cctypes.NewBridgeDenom(ch.Name, ExtAddrStr(ch.Name, tokenContract(ch.Name, []string{"USDT", "TST"}[r.Rng.IntN(2)])))
+			return Step{Kind: "gov", DtMs: 5000, A: A("what", "register_coin", "symbol", fmt.Sprintf("DUP%d", m.phase), "decimals", 6, "aliases", alias)}
+		}
 		if r.Pct(50) {
 			return Step{Kind: "gov", DtMs: 5000, A: A("what", "toggle", "token", denom)}
 		}
